@@ -735,6 +735,12 @@ func (f *Frame) execBuiltin(b *ssa.Builtin, c *ssa.CallCommon, result ssa.Value,
 		if len(c.Args) < 2 {
 			return s
 		}
+		if !strings.HasPrefix(s.s, "Slice_") || s.s != SBS {
+			vc.appendSeen = vc.P.fset.Position(pos).String()
+			if vc.sliceShortened != "" {
+				vc.errf("%s: a slice is shortened (%s) and appended to (%s) in one function: backing-array aliasing is outside the value model of slices", vc.P.fnKey(vc.fn), vc.sliceShortened, vc.appendSeen)
+			}
+		}
 		t := f.sval(c.Args[1]) // variadic tail is a slice
 		if s.s == SBS {
 			r := vc.fresh("appendbytes", SStr)
